@@ -15,11 +15,11 @@
  * the header; that this equals one CRC over the whole range is the composition law of CRC-32
  * (crc(crc(s,a),b) = crc(s,a||b)), which belongs to C04.
  *
- * The including harness must have `uint32_t crc_ret[CRC_MAXCALLS]` in struct inputs.
+ * The including harness must have `uint32_t crc_ret[6]` in struct inputs.
  */
 #ifndef CRC_HOOK_H
 #define CRC_HOOK_H
-#define CRC_MAXCALLS 4
+#define CRC_MAXCALLS 6
 #define CRC_MAXLEN   40
 
 struct crc_call {
